@@ -22,7 +22,9 @@ VERIF = os.path.dirname(os.path.dirname(os.path.abspath(__file__)))
 # [Cxx.name] or [Cxx.name|Cyy|Czz]: the obligation also counts for properties Cyy, Czz
 # proof-mode attributes a sidecar may put in front of an extracted fn (`@attr <<...>>`).  They change how Verus
 # searches for the proof (which facts are in scope), never what is assumed.
-ALLOWED_FN_ATTRS = ('#[verifier::loop_isolation(false)]', '#[verifier::spinoff_prover]')
+# exec_allows_no_decreases_clause: the fn is checked for partial correctness only (its loops get no termination proof);
+# the unit must report termination of that fn as NOT decided.
+ALLOWED_FN_ATTRS = ('#[verifier::loop_isolation(false)]', '#[verifier::spinoff_prover]', '#[verifier::exec_allows_no_decreases_clause]')
 
 LABEL_RE = re.compile(r'\[((?:C\d\d|[a-z]+)\.[A-Za-z0-9_.\-]+)((?:\|C\d\d)*)\]')
 
@@ -1212,7 +1214,30 @@ class Gen:
         if not re.search(r'\bidiom_\w+', a.arg2):
             raise SpecError(f'{region}: @idiom replacement must call a prelude fn named idiom_*')
         s_all = tx.src[tx.start:tx.end]
-        pat = r'\s*'.join(re.escape(tok) for tok in re.findall(r'\w+|[^\w\s]', a.arg))
+        mkpat = lambda text: r'\s*'.join(re.escape(tok) for tok in re.findall(r'\w+|[^\w\s]', text))
+        if '(...)' in a.arg:
+            # `(...)` in the anchor stands for one balanced parenthesis group (e.g. a closure argument whose text is
+            # verified separately through a lifted fn); the pieces around it are matched modulo whitespace as usual.
+            pieces = a.arg.split('(...)')
+            hits = []
+            for m0 in re.finditer(mkpat(pieces[0]), s_all):
+                pos = m0.end(); ok = True
+                for piece in pieces[1:]:
+                    k = next((i for i, t in enumerate(tx.ct) if t.start >= tx.start + pos), None)
+                    if k is None or tx.ct[k].text != '(':
+                        ok = False; break
+                    pos = tx.ct[rl.match_close(tx.ct, k)].end - tx.start
+                    m1 = re.compile(r'\s*' + mkpat(piece)).match(s_all, pos)
+                    if not m1:
+                        ok = False; break
+                    pos = m1.end()
+                if ok:
+                    hits.append((m0.start(), pos))
+            if len(hits) != 1:
+                raise SpecError(f'LOST-ANCHOR: {region}: idiom <<{a.arg}>> occurs {len(hits)} times')
+            tx.edit(tx.start + hits[0][0], tx.start + hits[0][1], a.arg2, 'R11', f'std idiom replaced by contract stub: {a.arg2}')
+            return
+        pat = mkpat(a.arg)
         ms = list(re.finditer(pat, s_all))
         if len(ms) != 1:
             raise SpecError(f'LOST-ANCHOR: {region}: idiom <<{a.arg}>> occurs {len(ms)} times')
